@@ -18,6 +18,21 @@ tier = sys.argv[sys.argv.index('--tier') + 1] if '--tier' in sys.argv else 'quic
 src = f'/tmp/seed/{pid}/seed_out/{var}'
 dst = f'/verif/seeded/{pid}{var}'
 env = dict(os.environ, GOFLAGS='-mod=mod', GOPROXY='off', GOSUMDB='off')
+if '--recheck' in sys.argv:
+    # only re-run the checks against an already confirmed change and update its record
+    meta = json.load(open(f'{dst}/meta.json'))
+    r = subprocess.run(['python3', '/verif/tools/trymutant.py', f'{dst}/patch.diff'] + checks + ['--tier', tier], capture_output=True, text=True)
+    print(r.stdout[-2500:])
+    meta.setdefault('earlier_results', []).append(meta.get('checks'))
+    res = meta.get('checks', {}) or {}
+    for c in checks:
+        mm = re.search(rf'== {c}: exit (\d+)', r.stdout)
+        sigs = re.findall(r'signature: (.*)', r.stdout.split(f'== {c}:')[1].split('== C')[0]) if f'== {c}:' in r.stdout else []
+        res[c] = {'exit': int(mm.group(1)) if mm else None, 'detected': bool(mm and mm.group(1) == '1'), 'signatures': sigs[:8]}
+    meta['checks'] = res
+    json.dump(meta, open(f'{dst}/meta.json', 'w'), indent=1)
+    print('updated', dst, '->', {c: res[c]['detected'] for c in res})
+    sys.exit(0)
 howto = open(f'{src}/HOWTO.txt').read()
 demo = 'demo_test.go' if os.path.exists(f'{src}/demo_test.go') else None
 m = re.search(r'cp\s+seed_out/\w+/(\S+)\s+(\S+)', howto)
